@@ -148,6 +148,19 @@ def main():
         print("harness-error: " + e)
     if errors:
         return 2
+    # thorough tier: keep exploring fresh random streams until half of the budget is used
+    rounds = 1
+    while (tier == "thorough" and time.time() - t0 < 0.5 * total and
+           not any(s["oracle"] or s["diff"] for s in summaries)):
+        extra = list(mod.gen_cases(common.mk_rng(seed, pid, tier, "round", rounds), tier))
+        more, errors = common.run_cases(modname, extra, want_model=model_ok, deadline=deadline - 0.25 * total)
+        for e in errors:
+            print("harness-error: " + e)
+        if errors:
+            return 2
+        summaries += more
+        cases += extra
+        rounds += 1
 
     n_eval = len(summaries)
     distinct = set()
@@ -252,7 +265,7 @@ def main():
         evaluations=n_eval, distinct_nontrivial=len(distinct),
         rule=mod.RULE, samples=samples[:3],
         traces_validated_against_impl=n_eval if model_ok else 0,
-        compared_observations=nsteps, corpus_cases=len(corpus),
+        compared_observations=nsteps, corpus_cases=len(corpus), random_rounds=rounds,
         situations_hit=dict(sorted(tags.items())),
         correspondence_disagreements=len(model_bad), oracle_failures=len(oracle_bad),
         explanation=getattr(mod, "EXPLANATION", ""),
